@@ -366,6 +366,8 @@ func memExec(st *State, line string) Result {
 	switch f[0] {
 	case "c10": // c10 round ts
 		return memC10(ms, u64(f[1]), u64(f[2]))
+	case "c10f": // c10f round ts hack
+		return memC10F(ms, u64(f[1]), u64(f[2]), f[3] == "1")
 	}
 	return Result{Out: "bad-op"}
 }
@@ -428,6 +430,130 @@ func memC10(ms *memState, round, ts uint64) Result {
 		}
 	}
 	return res
+}
+
+// memC10F: every (key vector, threshold) pair the real verifyFinalization hands to the certificate
+// verifier for a snapshot of (round, ts) — primary attempt and legacy retry — observed through the
+// hook VerifC10FinalizationPairs, each checked against the property's inequality.
+func memC10F(ms *memState, round, ts uint64, hack bool) Result {
+	var res Result
+	hash := crypto.Blake3Hash([]byte("verif c10 probe"))
+	if hack {
+		hash = finHash("hack")
+	}
+	pairs := ms.chain.VerifC10FinalizationPairs(round, ts, hash)
+	var sb strings.Builder
+	fmt.Fprintf(&sb, "ok %d", len(pairs))
+	for _, p := range pairs {
+		fmt.Fprintf(&sb, " %d %d", len(p.Publics), p.Threshold)
+	}
+	res.Out = sb.String()
+	res.Tags = []string{fmt.Sprintf("c10f:pairs=%d", len(pairs))}
+	intersects := func(n, t int) bool { return t > n || 3*(2*t-n) > n }
+	for i, p := range pairs {
+		n, t := len(p.Publics), int(p.Threshold)
+		if t <= n {
+			res.Nontrivial = true
+		}
+		if i > 0 {
+			res.Tags = append(res.Tags, fmt.Sprintf("c10f:legacy-retry:feasible=%t", t <= n))
+		}
+		if intersects(n, t) || res.PropKey != "" {
+			continue
+		}
+		which := "primary attempt"
+		if i > 0 {
+			which = "legacy retry"
+		}
+		if round == 0 && ms.pledging && n >= 1 && intersects(n-1, t) {
+			res.PropKey = "C10:round0-keyset-base+1"
+		} else if i > 0 {
+			res.PropKey = "C10:legacy-retry-keyset-exceeds-threshold"
+		} else {
+			res.PropKey = "C10:keyset-exceeds-threshold"
+		}
+		res.PropDesc = fmt.Sprintf("verifyFinalization(round %d, ts %d) %s: key vector %d verified with threshold %d: two signer sets can share only %d <= %d/3 keys (pledging chain %t)", round, ts, which, n, t, 2*t-n, n, ms.pledging)
+	}
+	return res
+}
+
+// memLegacyScenario: G mature genesis nodes; the first of them (the removal candidate) is removed
+// inside a node-operation window; snapTs lies in the same window after the removal. On mainnet before
+// the signer-set fork the verifier's key vector at snapTs has G-1 keys and the legacy retry uses
+// the G keys of the hour before the window; in predictive mode the candidate is excluded throughout.
+type memLegacyScenario struct {
+	h                                *memHistory
+	opStart, removalTs, snapTs, lts uint64
+	g                                int
+}
+
+func memGenLegacyScenario(r *Rand, legacy bool) *memLegacyScenario {
+	sc := &memLegacyScenario{h: &memHistory{}}
+	h := sc.h
+	sc.g = Pick(r, []int{8, 9, 9, 9, 10, 11, 12, 14, 15})
+	switch {
+	case legacy:
+		h.mainnet, h.net = true, memMainnetId()
+		days := uint64(r.Range(3, 300))
+		h.epoch = memForkAt - days*memDay - config.KernelNodeAcceptTimeBegin*memHour
+		sc.opStart = memForkAt - uint64(r.Range(1, int(days)-1))*memDay
+	case r.Chance(1, 3): // mainnet after the fork
+		h.mainnet, h.net = true, memMainnetId()
+		days := uint64(r.Range(3, 300))
+		h.epoch = memForkAt - days*memDay - config.KernelNodeAcceptTimeBegin*memHour
+		sc.opStart = memForkAt + uint64(r.Range(0, 30))*memDay
+	default:
+		h.net = crypto.Blake3Hash(r.Bytes(8))
+		h.epoch = uint64(1600000000+r.Intn(100000000)) * memSecond
+		sc.opStart = h.epoch + uint64(r.Range(1, 300))*memDay + config.KernelNodeAcceptTimeBegin*memHour
+	}
+	first := 0
+	for k := 0; k < sc.g; k++ {
+		h.genesis = append(h.genesis, k)
+		h.recs = append(h.recs, memRec{ts: h.epoch, key: k, pay: 1000 + k, state: "A", tx: crypto.Blake3Hash([]byte(fmt.Sprintf("tx %d g", k)))})
+		if h.id(k).String() < h.id(first).String() {
+			first = k
+		}
+	}
+	h.nextKey = sc.g
+	sc.removalTs = sc.opStart + Pick(r, []uint64{0, 1, 30 * memSecond, memHour, 3*memHour + 17, 6*memHour + 3599*memSecond})
+	sc.snapTs = sc.removalTs + Pick(r, []uint64{1, memSecond, 61 * memSecond, memHour})
+	if end := sc.opStart + 7*memHour - 1; sc.snapTs > end {
+		sc.snapTs = end
+	}
+	h.recs = append(h.recs, memRec{ts: sc.removalTs, key: first, pay: 1000 + first, state: "R", tx: crypto.Blake3Hash([]byte("tx removal"))})
+	hour := (sc.snapTs - h.epoch) / memHour % 24
+	sc.lts = sc.snapTs - (hour+1-config.KernelNodeAcceptTimeBegin)*memHour
+	return sc
+}
+
+func memGenLegacyCase(r *Rand) []string {
+	return memLegacyLines(r, memGenLegacyScenario(r, r.Chance(2, 3)))
+}
+
+// the 9-node mainnet pre-fork removal scenario, always run first
+func memLegacyCorpus() []string {
+	for seed := uint64(1); ; seed++ {
+		r := NewRand(seed)
+		if sc := memGenLegacyScenario(r, true); sc.g == 9 {
+			return memLegacyLines(r, sc)
+		}
+	}
+}
+
+func memLegacyLines(r *Rand, sc *memLegacyScenario) []string {
+	h := sc.h
+	lines := []string{"reset", h.initLine(Pick(r, h.genesis)), h.loadLine(r, h.recs), "chain state"}
+	times := []uint64{sc.snapTs, sc.removalTs, sc.removalTs + 1, sc.opStart, sc.opStart - 1, sc.opStart + 7*memHour - 1, sc.opStart + 7*memHour, sc.lts, sc.snapTs + memDay}
+	for _, t := range times {
+		lines = append(lines, fmt.Sprintf("c10f %d %d 0", r.Range(1, 2), t))
+	}
+	lines = append(lines, fmt.Sprintf("c10f 0 %d 0", sc.snapTs), fmt.Sprintf("c10 1 %d", sc.snapTs), fmt.Sprintf("c10 1 %d", sc.lts),
+		fmt.Sprintf("keys 1 %d", sc.snapTs), fmt.Sprintf("keys 1 %d", sc.lts), fmt.Sprintf("removing %d", sc.snapTs))
+	if h.mainnet {
+		lines = append(lines, fmt.Sprintf("c10f 1 %d 1", sc.snapTs))
+	}
+	return lines
 }
 
 // ---------------------------------------------------------------- generator
@@ -700,6 +826,9 @@ func (h *memHistory) chainLine(r *Rand, times []uint64) string {
 }
 
 func memGen(r *Rand, i int, tier string) []string {
+	if i%6 == 5 {
+		return memGenLegacyCase(r)
+	}
 	h := memGenHistory(r, tier)
 	self := Pick(r, h.genesis)
 	if r.Chance(1, 3) {
@@ -724,6 +853,9 @@ func memGen(r *Rand, i int, tier string) []string {
 			switch x := r.Intn(20); {
 			case x < 9:
 				lines = append(lines, fmt.Sprintf("c10 0 %d", ts), fmt.Sprintf("c10 %d %d", r.Range(1, 3), ts))
+				if r.Chance(1, 2) {
+					lines = append(lines, fmt.Sprintf("c10f %d %d %d", r.Intn(2), ts, r.Intn(8)/7))
+				}
 			case x < 11:
 				lines = append(lines, fmt.Sprintf("keys %d %d", r.Intn(2), ts))
 			case x < 13:
@@ -765,11 +897,12 @@ func memWitnessC10() []string {
 func init() {
 	Register(&Subsystem{
 		Name: "membership",
-		Rule: "case = generated membership history (genesis + pledge/accept/cancel/remove/arbitrary records at equal, adjacent and boundary-spaced timestamps) loaded into a real kernel.Node, one or two chains (with state / identity loaded at a mocked clock), queries at record, maturity and window boundaries ±1; non-trivial = a query whose answer is a non-empty list / a feasible certificate (threshold <= key set) / a non-nil node",
+		Rule: "case = generated membership history (genesis + pledge/accept/cancel/remove/arbitrary records at equal, adjacent and boundary-spaced timestamps) loaded into a real kernel.Node, one or two chains (with state / identity loaded at a mocked clock), queries at record, maturity and window boundaries ±1 (incl. `c10f`: the (key vector, threshold) pairs the real verifyFinalization uses, primary and legacy retry); 1 case in 6: a removal inside the node-operation window on mainnet before/after the signer-set fork or another network; non-trivial = a query whose answer is a non-empty list / a feasible certificate (threshold <= key set) / a non-nil node",
 		Gen:  memGen,
 		Exec: memExec,
 		Corpus: [][]string{
 			memWitnessC10(),
+			memLegacyCorpus(),
 		},
 	})
 }
